@@ -70,10 +70,13 @@ func c10RunSet(l *c10Layout, c *c10SetCase, pods []*statesinformer.PodMeta) *c10
 		suppressPolicyStatuses: map[string]suppressPolicyStatus{},
 	}
 	out := &c10SetOutcome{}
-	out.Panic = mc.Guard(func() { r.adjustByCPUSet(resource.NewMilliQuantity(c.BudgetMilli, resource.DecimalSI), info) })
+	out.Panic = c10Guard(func() { r.adjustByCPUSet(resource.NewMilliQuantity(c.BudgetMilli, resource.DecimalSI), info) })
 	out.Writes = ex.writes
 	out.Final = ex.final(string(system.CPUSetCPUSName))
-	out.RecPan = mc.Guard(func() {
+	if c.Topo.Static && out.Panic == "" {
+		return out // with the static policy calcBECPUSet already ran inside (recoverCPUSetIfNeed); its result is the BE root's final cpuset
+	}
+	out.RecPan = c10Guard(func() {
 		s, err := r.calcBECPUSet()
 		if err == nil && s != nil {
 			out.Recover = s.ToSlice()
@@ -92,9 +95,14 @@ func c10JudgeSetCase(tree *c10Tree, l *c10Layout, c *c10SetCase, o *c10SetOutcom
 	add := func(key, what string) {
 		vs = append(vs, mc.Violation{Key: key, What: fmt.Sprintf("%s; case %+v", what, *c), Replay: c})
 	}
+	// defect class of a crash: "no-eligible-cpu" when no CPU is certainly eligible (every CPU reserved, system-exclusive
+	// or named by an LSE pod), else "eligible-cpus"
 	elig := "eligible-cpus"
-	if prot.eligMax == 0 {
+	if prot.eligMin == 0 {
 		elig = "no-eligible-cpu"
+		cnt("no_certainly_eligible_cpu_cases", 1)
+	}
+	if prot.eligMax == 0 {
 		cnt("every_cpu_protected_cases", 1)
 	}
 	if prot.contested > 0 {
@@ -199,11 +207,23 @@ func c10DedupSets(sets [][]int) [][]int {
 }
 
 // pod options of a layout: absent, or QoS x annotated set (+ one malformed annotation)
-func c10PodOptions(l *c10Layout, full bool) []c10Pod {
+// level 2: full (absent | 4 QoS x 4 sets | malformed); level 1: absent | LSE,LSR x 4 sets; level 0: absent | LSE core0,
+// LSE last, LSR NUMA0, LS all
+func c10PodOptions(l *c10Layout, level int) []c10Pod {
 	sets := c10DedupSets([][]int{l.setCore0(), l.setNUMA0(), l.ids(), l.setLast()})
 	out := []c10Pod{{}} // absent (no pod; also stands for a pod without cpuset annotation, which the code skips)
+	if level == 0 {
+		seen := map[c10Pod]bool{}
+		for _, p := range []c10Pod{{"LSE", c10Fmt(l.setCore0())}, {"LSE", c10Fmt(l.setLast())}, {"LSR", c10Fmt(l.setNUMA0())}, {"LS", c10Fmt(l.ids())}} {
+			if !seen[p] {
+				seen[p] = true
+				out = append(out, p)
+			}
+		}
+		return out
+	}
 	qos := []string{"LSE", "LSR", "LS", "BE"}
-	if !full {
+	if level == 1 {
 		qos = []string{"LSE", "LSR"}
 	}
 	for _, q := range qos {
@@ -211,14 +231,17 @@ func c10PodOptions(l *c10Layout, full bool) []c10Pod {
 			out = append(out, c10Pod{QoS: q, CPUSet: c10Fmt(s)})
 		}
 	}
-	if full {
+	if level == 2 {
 		out = append(out, c10Pod{QoS: "LSE", CPUSet: "0-x"}) // malformed annotation must not crash anything
 	}
 	return out
 }
 
-func c10BudgetAlphabet(n int) []int64 {
-	cand := []int64{-1500, 0, 1, 2000, 2001, 3000, int64(n/2)*1000 + 1, int64(n) * 1000, int64(n+1) * 1000}
+func c10BudgetAlphabet(n int, thorough bool) []int64 {
+	cand := []int64{-1500, 1, 2001, 3000, int64(n/2)*1000 + 1, int64(n) * 1000, int64(n+1) * 1000}
+	if thorough {
+		cand = []int64{-1500, 0, 1, 2000, 2001, 3000, int64(n/2)*1000 + 1, int64(n) * 1000, int64(n+1) * 1000}
+	}
 	seen := map[int64]bool{}
 	var out []int64
 	for _, v := range cand {
@@ -237,18 +260,18 @@ func c10RunCPUSetPart(env *mc.Env, tree *c10Tree, layouts []*c10Layout, npods in
 	var total int64
 	for _, l := range layouts {
 		l := l
-		podFull := c10PodOptions(l, true)
-		podRed := c10PodOptions(l, false)
-		podDims := []int{len(podFull)}
-		podAlpha := [][]c10Pod{podFull}
-		for k := 1; k < npods; k++ {
-			if k == 1 && env.Thorough() {
-				podDims = append(podDims, len(podFull))
-				podAlpha = append(podAlpha, podFull)
-			} else {
-				podDims = append(podDims, len(podRed))
-				podAlpha = append(podAlpha, podRed)
-			}
+		// pod alphabets per slot: quick = full x LSE/LSR-only; thorough = full x full x small
+		levels := []int{2, 1}
+		if env.Thorough() {
+			levels = []int{2, 2, 0}
+		}
+		levels = levels[:npods]
+		var podDims []int
+		var podAlpha [][]c10Pod
+		for _, lv := range levels {
+			opts := c10PodOptions(l, lv)
+			podDims = append(podDims, len(opts))
+			podAlpha = append(podAlpha, opts)
 		}
 		// prebuilt pod objects (read-only for the code under check)
 		podObjs := make([][]*statesinformer.PodMeta, len(podAlpha))
@@ -257,7 +280,10 @@ func c10RunCPUSetPart(env *mc.Env, tree *c10Tree, layouts []*c10Layout, npods in
 				podObjs[k] = append(podObjs[k], c10BuildPod(k, p))
 			}
 		}
-		reserved := c10DedupSets([][]int{nil, c10FirstK(1), c10FirstK(min(2, l.N)), l.ids()})
+		reserved := c10DedupSets([][]int{nil, c10FirstK(min(2, l.N)), l.ids()})
+		if env.Thorough() {
+			reserved = c10DedupSets([][]int{nil, c10FirstK(1), c10FirstK(min(2, l.N)), l.ids()})
+		}
 		type sysOpt struct {
 			ids       []int
 			nonExcl   bool
@@ -271,8 +297,11 @@ func c10RunCPUSetPart(env *mc.Env, tree *c10Tree, layouts []*c10Layout, npods in
 		if env.Thorough() {
 			sys = append(sys, sysOpt{malformed: true})
 		}
-		olds := c10DedupSets([][]int{l.ids(), c10FirstK(min(2, l.N)), nil, c10FirstK(1)})
-		budgets := c10BudgetAlphabet(l.N)
+		olds := c10DedupSets([][]int{l.ids(), c10FirstK(min(2, l.N)), nil})
+		if env.Thorough() {
+			olds = c10DedupSets([][]int{l.ids(), c10FirstK(min(2, l.N)), nil, c10FirstK(1)})
+		}
+		budgets := c10BudgetAlphabet(l.N, env.Thorough())
 		dims := append([]int{}, podDims...)
 		dims = append(dims, len(reserved), len(sys), len(olds), len(budgets), 2)
 		rx := mc.Radix{Dims: dims}
@@ -319,8 +348,8 @@ func c10RunCPUSetPart(env *mc.Env, tree *c10Tree, layouts []*c10Layout, npods in
 	res.Traces = res.Evaluations
 	res.Distinct = ds.Len()
 	res.Rule = fmt.Sprintf("every member of: %d processor layouts (sockets{1,2} x NUMA/socket{1,2} x cores/NUMA{1,2,4} x HT{1,2}, adjacent and split sibling numbering) x ordered tuples of %d pods "+
-		"(absent | QoS{LSE,LSR,LS,BE} x cpuset annotation{core 0, NUMA node 0, all CPUs, last CPU} | malformed annotation; 2nd/3rd pod partly reduced to LSE/LSR) x reservedCPUs{none,{0},{0,1},all} x "+
-		"system-QoS cpuset{none,{0},{0,1},upper half,all; {0,1} non-exclusive; malformed(thorough)} x current BE cpuset{all,{0,1},empty,{0}} x budget milli{-1500,0,1,2000,2001,3000,N/2+0.001,N,N+1 CPUs} x kubelet policy{none,static}; "+
+		"(absent | QoS{LSE,LSR,LS,BE} x cpuset annotation{core 0, NUMA node 0, all CPUs, last CPU} | malformed annotation; quick: 2nd pod LSE/LSR only; thorough: 3rd pod in {absent, LSE core 0, LSE last CPU, LSR NUMA 0, LS all}) x reservedCPUs{none,{0,1},all (+{0} thorough)} x "+
+		"system-QoS cpuset{none,{0},{0,1},upper half,all; {0,1} non-exclusive; malformed(thorough)} x current BE cpuset{all,{0,1},empty (+{0} thorough)} x budget milli{-1500,1,2001,3000,N/2+0.001,N,N+1 CPUs (+0,2000 thorough)} x kubelet policy{none,static}; "+
 		"non-trivial = a cpuset was written; distinct = distinct (case, written sets) among those", len(layouts), npods)
 	res.Bounds = map[string]any{"layouts": len(layouts), "max_cpus": c10MaxN(layouts), "pods": npods, "cases": total}
 	res.Assumptions = []string{
